@@ -8,7 +8,7 @@ ASSUME = ["oracle: line = number of \\n bytes before the offset, column = offset
 
 # the same differential check interpreted by Miri
 MIRI = {"quick": ["--maxlen", "2", "--random", "6", "--files", "1"],
-        "thorough": ["--maxlen", "5", "--random", "400", "--files", "40"], "shards": 3, "shard_by_seed": True}
+        "thorough": ["--maxlen", "4", "--random", "200", "--files", "10"], "shards": 3, "shard_by_seed": True}
 
 
 def run(tier, seed):
